@@ -10,7 +10,9 @@ tag=$(python3 -c "import hashlib;print(hashlib.sha1('$d'.encode()).hexdigest()[:
 cleanup() { git -C /repo worktree remove --force $d 2>/dev/null; rm -f /verif/.build/go.$tag.mod /verif/.build/go.$tag.sum /verif/.build/props.test.go.$tag.mod /verif/.build/props.race.test.go.$tag.mod; }
 trap cleanup EXIT
 echo "== $src: $(python3 -c "import json;print(json.load(open('$src/meta.json')).get('what','')[:200])")"
-git -C $d apply $src/patch.diff || { echo "PATCH DOES NOT APPLY"; exit 8; }
+if ! git -C $d apply $src/patch.diff 2>/dev/null; then
+  if git -C $d apply -3 $src/patch.diff 2>/dev/null && ! git -C $d diff --name-only --diff-filter=U | grep -q .; then echo "(patch applied with 3-way merge)"; git -C $d reset -q; else echo "PATCH DOES NOT APPLY"; exit 8; fi
+fi
 (cd $d && go build ./... && go build -tags verif ./...) || { echo "DOES NOT BUILD"; exit 7; }
 (cd /verif && flock /tmp/sa-test.lock python3 tools/baseline.py $d | tail -2)
 for p in $props; do
